@@ -258,6 +258,11 @@ fn main() {
             }
         }
     }
+    // development aids (evidence then says exhaustive: false): restrict to one level / the first N items
+    let only_level = std::env::var("VERIF_ONLY_LEVEL").ok().and_then(|s| s.parse::<usize>().ok());
+    if let Some(l) = only_level {
+        work.retain(|w| w.2 == l);
+    }
     if let Some(limit) = std::env::var("VERIF_LIMIT").ok().and_then(|s| s.parse::<usize>().ok()) {
         work.truncate(limit);
     }
@@ -276,7 +281,7 @@ fn main() {
             continue;
         }
         // a deeper level is only started while less than 40% of the time budget is used
-        if level > 1 && run.elapsed() > 0.4 * budget_s {
+        if level > 1 && only_level.is_none() && run.elapsed() > 0.4 * budget_s {
             levels_skipped.push(json!({"level": level, "evaluations": items.len(), "reason": format!("{:.0}s of the {budget_s:.0}s budget used after the previous level", run.elapsed())}));
             continue;
         }
@@ -389,7 +394,7 @@ fn main() {
     }
 
     let evaluations = results.len();
-    let exhaustive = std::env::var_os("VERIF_LIMIT").is_none() && levels_skipped.is_empty();
+    let exhaustive = std::env::var_os("VERIF_LIMIT").is_none() && only_level.is_none() && levels_skipped.is_empty();
     let coverage = json!({
         "evaluations": evaluations,
         "distinct_nontrivial": nontrivial.len(),
